@@ -20,7 +20,8 @@ def replayer(prefix):
 
 
 def try_replay(prop, harness, record):
-    for prefix, f in REPLAYERS.items():
+    # longest matching prefix wins (`c16_readv` must reach the vectored replayer, not the `c16_re` one)
+    for prefix, f in sorted(REPLAYERS.items(), key=lambda kv: -len(kv[0])):
         if harness.startswith(prefix):
             try:
                 return f(prop, harness, record)
@@ -65,13 +66,15 @@ def build_replay():
     return _built["ok"]
 
 
-def run_case(args, timeout_s):
+def run_case(args, timeout_s, extra_env=None):
     """Runs one replay case. Returns dict(rc, timed_out, out(json or None), stderr_tail)."""
     binp = build_replay()
     if not binp:
         return {"error": "replay crate does not build: " + _built.get("err", "")}
     try:
-        p = subprocess.run([binp] + [str(a) for a in args], capture_output=True, text=True, timeout=timeout_s)
+        env = dict(os.environ)
+        env.update(extra_env or {})
+        p = subprocess.run([binp] + [str(a) for a in args], capture_output=True, text=True, timeout=timeout_s, env=env)
     except subprocess.TimeoutExpired:
         return {"rc": None, "timed_out": True, "out": None, "stderr_tail": ""}
     out = None
@@ -214,6 +217,79 @@ def _replay_buf(prop, harness, rec):
     st = "reproduced" if bad else "not_reproduced"
     return {"status": st, "detail": "; ".join(bad) or "native run satisfies the oracle (time-limit / wait-failure choices of the counterexample are not replayable natively)",
             "case": ["io", entry, length, blocking] + script, "out": r["out"]}
+
+
+# ---------------------------------------------------------------- C16/C17 vectored socket I/O
+def vec_oracle(o, lens, script, blocking, prop):
+    """Mirror of the harness's vectored oracle on a native run (requests = [count, [[buffer, offset, len]..]])."""
+    if o is None:
+        return ["no output (crash / abort inside the hooked call)"]
+    bad = []
+    starts = [0]
+    for l in lens:
+        starts.append(starts[-1] + l)
+    moved, si = 0, 0
+    for cnt, elems in o["requests"]:
+        if cnt != len(elems):
+            bad.append(f"C17 element count {cnt} does not match the array")
+        cursor, offered = moved, 0
+        for which, off, l in elems:
+            if l == 0:
+                continue
+            if which < 0 or which >= len(lens) or off + l > lens[which]:
+                bad.append(f"C17 range (buffer {which}, offset {off}, len {l}) is outside the caller's buffers")
+                offered += l
+                continue
+            lp = starts[which] + off
+            if lp < cursor:
+                bad.append(f"C17 range (buffer {which}, offset {off}, len {l}) already transferred or out of order (next position {cursor})")
+            elif lp != cursor:
+                bad.append(f"C16 range (buffer {which}, offset {off}, len {l}) is not the next position {cursor}")
+            cursor = max(cursor, lp + l)
+            offered += l
+        r = script[si] if si < len(script) else "r"
+        si += 1
+        if r[0] == "d":
+            moved += min(int(r[1:]), offered)
+    if prop == "C16":
+        if o["ret"] >= 0 and o["ret"] != o["moved"]:
+            bad.append(f"C16 returned {o['ret']} but {o['moved']} bytes were moved")
+        if o["ret"] < 0 and (o["ret"] != -1 or o["moved"] != 0):
+            bad.append(f"C16 returned {o['ret']} after {o['moved']} bytes were moved")
+        if o["ret"] == -1 and o["moved"] == 0 and o["calls"] > 0 and o["errno"] != o["last_errno"]:
+            bad.append(f"C16 errno {o['errno']} is not the failing call's errno {o['last_errno']}")
+        if sum(lens) == 0 and o["ret"] != 0 and (o["calls"] == 0 or o["last_errno"] == 0):
+            bad.append(f"C16 request with only empty buffers returned {o['ret']}")
+        if o["moved"] > sum(lens):
+            bad.append("C16 more bytes moved than requested")
+    else:
+        bad = [b for b in bad if b.startswith("C17")]
+    return bad
+
+
+@replayer("c16_readv")
+@replayer("c16_writev")
+@replayer("c16_recvmsg")
+@replayer("c16_sendmsg")
+@replayer("c17_")
+def _replay_vec(prop, harness, rec):
+    """any() order of run_vec: 3 x (kind, n), STREAM 8 x u8, BLOCKING, limit flag, WAIT_FAILS_AT, BUFS 4 x u8, l0, l1."""
+    entry = harness.split("_", 1)[1]
+    script = _script_from(rec)[:2]  # vectored harnesses use 2 scripted responses, then the peer resets
+    blocking = (_int(rec, 14, signed=False) or 0) & 1
+    unlimited = (_int(rec, 15, signed=False) or 0) & 1
+    lens = [_int(rec, 21, signed=False), _int(rec, 22, signed=False)]
+    if len(script) < 2 or any(l is None or l > 2 for l in lens):
+        return {"status": "unavailable", "detail": "could not decode the counterexample"}
+    case = ["vec", entry, blocking, ",".join(str(l) for l in lens)] + script
+    env = None if unlimited else {"OCV_LIMIT_MS": "15"}
+    r = run_case(case, 30, extra_env=env)
+    if "error" in r:
+        return {"status": "unavailable", "detail": r["error"]}
+    bad = vec_oracle(r["out"], lens, script, blocking, prop)
+    st = "reproduced" if bad else "not_reproduced"
+    return {"status": st, "detail": "; ".join(bad) or "native run satisfies the oracle (a wait-failure choice of the counterexample is not replayable natively)",
+            "case": case, "env": env, "out": r["out"], "stderr_tail": r.get("stderr_tail", "")}
 
 
 @replayer("c18_nonblocking_")
